@@ -247,6 +247,30 @@ def r_numeric_tables(r, prog):
         for a in aggregates(prog, 'core::ops::range::RangeInclusive'):
             if a['fn'] is g:
                 rng = tuple(const_int(o) for o in a['rv']['ops'][:2])
+    if rng is None:
+        # second idiom: two comparisons of the value with the bounds (v < lo || v > hi, or !(v >= lo && v <= hi))
+        lo = hi = None
+        for bb, j, lhs, rv, st in pt.assigns():
+            if rv['k'] == 'bin' and rv['op'] in ('Lt', 'Le', 'Gt', 'Ge') and not pt.blocks[bb].get('cleanup'):
+                a, b = vexpr(pt, rv['a']), vexpr(pt, rv['b'])
+                op = rv['op']
+                if b == 'arg2.value':       # constant on the left: turn the comparison round
+                    a, b, op = b, a, {'Lt': 'Gt', 'Le': 'Ge', 'Gt': 'Lt', 'Ge': 'Le'}[op]
+                if a != 'arg2.value':
+                    continue
+                k = _resolve_const(prog, b)
+                if not isinstance(k, int):
+                    continue
+                if op == 'Lt':
+                    lo = k              # v < lo  : out of bounds below lo
+                elif op == 'Ge':
+                    lo = k              # v >= lo : in bounds from lo
+                elif op == 'Gt':
+                    hi = k
+                elif op == 'Le':
+                    hi = k
+        if lo is not None and hi is not None:
+            rng = (lo, hi)
     if rng == (0, 2**31 - 1):
         r.ok('tags are checked against 0..=2147483647')
     else:
